@@ -107,6 +107,7 @@ class Ctx:
     cont: Optional[Callable[[], int]]
     ret: Callable[[], int]
     exc: Callable[[str], list]
+    rgx: Optional[Callable[[], int]] = None  # exit of the enclosing inlined region (normalize.Region)
 
 
 class CFG:
@@ -164,7 +165,7 @@ class CFG:
             return n
         if isinstance(s, (ast.While, ast.For, ast.AsyncFor)):
             n = self._new("loop", s)
-            inner = Ctx(lambda: succ, lambda: n, ctx.ret, ctx.exc)
+            inner = Ctx(lambda: succ, lambda: n, ctx.ret, ctx.exc, ctx.rgx)
             body = self._seq(s.body, n, inner)
             self._edge(n, body, "t")
             infinite = (
@@ -215,6 +216,16 @@ class CFG:
             return n
         if type(s).__name__ == "Match":
             raise AnalysisError("match statement not modelled")
+        if type(s).__name__ == "Region":
+            # body of an inlined helper: `RegionExit` (a former `return`) jumps behind it
+            inner = Ctx(ctx.brk, ctx.cont, ctx.ret, ctx.exc, lambda: succ)
+            return self._seq(s.body, succ, inner)
+        if type(s).__name__ == "RegionExit":
+            n = self._new("stmt", s)
+            if ctx.rgx is None:
+                raise AnalysisError("RegionExit outside a region")
+            self._edge(n, ctx.rgx(), "n")
+            return n
         n = self._new("stmt", s)
         self._edge(n, succ, "n")
         self._raises(n, s, ctx)
@@ -243,6 +254,7 @@ class CFG:
                 (lambda: fin_to("cont", ctx.cont)) if ctx.cont else None,
                 lambda: fin_to("ret", ctx.ret),
                 fin_exc,
+                (lambda: fin_to("rgx", ctx.rgx)) if ctx.rgx else None,
             )
             after = fin_to(("n", succ), lambda: succ)
         else:
@@ -265,7 +277,7 @@ class CFG:
                     return tgts
             return tgts + inner.exc(kind)
 
-        body_ctx = Ctx(inner.brk, inner.cont, inner.ret, body_exc)
+        body_ctx = Ctx(inner.brk, inner.cont, inner.ret, body_exc, inner.rgx)
         orelse = self._seq(t.orelse, after, inner) if t.orelse else after
         return self._seq(t.body, orelse, body_ctx)
 
@@ -345,40 +357,151 @@ class CFG:
                 todo.append(p)
         return seen
 
+    def _flag_names(self) -> set:
+        """synthetic result names of inlined helpers (__ret…/__val…) and the names they are copied into (`query = __ret…`)"""
+        names = self.__dict__.get("_flag_names_memo")
+        if names is None:
+            names = set()
+            for n, d in self.g.nodes(data=True):
+                s = d["ast"]
+                if d["kind"] == "stmt" and isinstance(s, ast.Assign) and len(s.targets) == 1 and isinstance(s.targets[0], ast.Name):
+                    t = s.targets[0].id
+                    if t.startswith(("__ret", "__val")):
+                        names.add(t)
+                    elif isinstance(s.value, ast.Name) and s.value.id.startswith(("__ret", "__val")):
+                        names.add(t)
+            self.__dict__["_flag_names_memo"] = names
+        return names
+
+    def _flag_effect(self, n):
+        """[(name, value)] when node n (re)binds tracked names: value 'None' | 'True' | 'False' | ('copy', other) | None (unknown)"""
+        memo = self.__dict__.setdefault("_flag_memo", {})
+        if n in memo:
+            return memo[n]
+        res = None
+        d = self.g.nodes[n]
+        s = d["ast"]
+        tracked = self._flag_names()
+        if d["kind"] == "stmt" and isinstance(s, ast.Assign) and len(s.targets) == 1 and isinstance(s.targets[0], ast.Name) and s.targets[0].id in tracked:
+            v = s.value
+            if isinstance(v, ast.Constant) and (isinstance(v.value, bool) or v.value is None):
+                res = [(s.targets[0].id, str(v.value))]
+            elif isinstance(v, ast.Name) and v.id in tracked:
+                res = [(s.targets[0].id, ("copy", v.id))]
+            else:
+                res = [(s.targets[0].id, None)]
+        elif s is not None and d["kind"] in ("stmt", "loop", "with", "handler") and tracked:
+            # any other store to a tracked name (loop target, tuple assignment, augmented assignment, with … as) makes it unknown
+            stores = []
+            tops = []
+            if isinstance(s, (ast.For, ast.AsyncFor)):
+                tops = [s.target]
+            elif isinstance(s, (ast.With, ast.AsyncWith)):
+                tops = [i.optional_vars for i in s.items if i.optional_vars is not None]
+            elif isinstance(s, ast.Assign):
+                tops = s.targets
+            elif isinstance(s, (ast.AugAssign, ast.AnnAssign)):
+                tops = [s.target]
+            elif isinstance(s, ast.ExceptHandler) and s.name:
+                stores.append(s.name)
+            for t in tops:
+                for x in ast.walk(t):
+                    if isinstance(x, ast.Name) and x.id in tracked:
+                        stores.append(x.id)
+            if stores:
+                res = [(nm, None) for nm in stores]
+        memo[n] = res
+        return res
+
+    def _flag_test(self, n):
+        """(name, kind, polarity) when node n branches on a tracked name: kind 'truth' (`if x` / `if not x`) or 'none' (`x is None`)"""
+        d = self.g.nodes[n]
+        s = d["ast"]
+        if d["kind"] == "test" and isinstance(s, ast.If):
+            t = s.test
+            pol = True
+            while isinstance(t, ast.UnaryOp) and isinstance(t.op, ast.Not):
+                t = t.operand
+                pol = not pol
+            tracked = self._flag_names()
+            if isinstance(t, ast.Name) and t.id in tracked:
+                return t.id, "truth", pol
+            if isinstance(t, ast.Compare) and len(t.ops) == 1 and isinstance(t.left, ast.Name) and t.left.id in tracked and isinstance(t.comparators[0], ast.Constant) and t.comparators[0].value is None:
+                if isinstance(t.ops[0], (ast.Is, ast.Eq)):
+                    return t.left.id, "none", pol
+                if isinstance(t.ops[0], (ast.IsNot, ast.NotEq)):
+                    return t.left.id, "none", not pol
+        return None
+
     def find_path(self, srcs, targets, avoid_nodes=(), kinds=None, avoid_edge_kinds=None, edge_ok=None) -> list:
-        """One witness path (list of nodes) or [].  ``edge_ok(n, m, kinds)`` may veto an edge."""
+        """One witness path (list of nodes) or [].  ``edge_ok(n, m, kinds)`` may veto an edge.
+        The boolean result flags that the normaliser introduces for inlined helpers (``__ret…``/``__val…``) are tracked along
+        the path, so a branch on such a flag is only followed in the direction its known constant value allows."""
         avoid_nodes = set(avoid_nodes)
         targets = set(targets)
         avoid_edge_kinds = avoid_edge_kinds or {}
+        has_flags = self.__dict__.get("_has_flags")
+        if has_flags is None:
+            has_flags = bool(self._flag_names())
+            self.__dict__["_has_flags"] = has_flags
         prev = {}
         todo = []
         for s in srcs:
             if s not in avoid_nodes:
-                prev[s] = None
-                todo.append(s)
+                st = (s, frozenset())
+                prev[st] = None
+                todo.append(st)
         i = 0
         while i < len(todo):
-            n = todo[i]
+            state = todo[i]
+            n, flags = state
             i += 1
             if n in targets:
                 path = []
-                while n is not None:
-                    path.append(n)
-                    n = prev[n]
+                cur = state
+                while cur is not None:
+                    path.append(cur[0])
+                    cur = prev[cur]
                 return path[::-1]
+            if has_flags:
+                eff = self._flag_effect(n)
+                if eff is not None:
+                    fd = dict(flags)
+                    for name, val in eff:
+                        if isinstance(val, tuple):
+                            val = fd.get(val[1])
+                        if val is None:
+                            fd.pop(name, None)
+                        else:
+                            fd[name] = val
+                    flags = frozenset(fd.items())
+                ft = self._flag_test(n)
+            else:
+                ft = None
             cut = avoid_edge_kinds.get(n)
             for m in self.g.successors(n):
-                if m in prev or m in avoid_nodes:
+                if m in avoid_nodes:
                     continue
                 ek = self.g[n][m]["kinds"]
                 if kinds is not None and not (ek & kinds):
                     continue
                 if cut is not None and not (ek - cut):
                     continue
+                if ft is not None:
+                    known = dict(flags).get(ft[0])
+                    if known is not None:
+                        holds = (known == "True") if ft[1] == "truth" else (known == "None")
+                        truth = holds if ft[2] else not holds
+                        feasible = {"t"} if truth else {"f"}
+                        if not ((ek - {"t", "f"}) or (ek & feasible)):
+                            continue
                 if edge_ok is not None and not edge_ok(n, m, ek):
                     continue
-                prev[m] = n
-                todo.append(m)
+                nst = (m, flags)
+                if nst in prev:
+                    continue
+                prev[nst] = state
+                todo.append(nst)
         return []
 
     def describe_path(self, path) -> list:
